@@ -65,8 +65,8 @@ def check_chunk(arg):
     for ast in chunk:
         expected = progs.ref(ast)
 
-        def scenario(prefix, ast=ast, fresh=False):
-            env = evloop.Env(prefix)
+        def scenario(prefix, ast=ast, fresh=False, rootctx=None):
+            env = evloop.Env(prefix, context=rootctx)
             try:
                 o1 = env.run(progs.build(ast))
                 calls1 = Counter(env.ctl.func_calls)
@@ -83,7 +83,7 @@ def check_chunk(arg):
         def on_exec(choices, res, ast=ast, expected=expected):
             nonlocal n_fail, reexec
             o1, o2, calls1, calls2, rows1, rows2 = res
-            case = {"ast": ast, "choices": choices, "fresh_backend": fresh_}
+            case = {"ast": ast, "choices": choices, "fresh_backend": fresh_, "root_context": rootctx_}
             for i, (o, rows) in enumerate(((o1, rows1), (o2, rows2))):
                 out = progs.outcome_of(o)
                 if out not in expected:
@@ -104,8 +104,9 @@ def check_chunk(arg):
                 elif raisers1:
                     reexec += 1
 
-        for fresh_ in (False, True):
-            st = evloop.explore(lambda p, f=fresh_: scenario(p, fresh=f), bound, 10**9, on_exec, selfcheck=(ast is chunk[0]))
+        # (second execution on a new backend object?, configured root context: with one, every job carries a context hash)
+        for fresh_, rootctx_ in ((False, None), (True, None), (False, {"v": "A"})):
+            st = evloop.explore(lambda p, f=fresh_, c=rootctx_: scenario(p, fresh=f, rootctx=c), bound, 10**9, on_exec, selfcheck=(ast is chunk[0]))
             stats.merge(st)
     return {"viol": viol[:40], "stats": stats.as_dict(), "states": stats.states, "ntrans": len(stats.transitions), "n_fail": n_fail, "reexec": reexec}
 
@@ -263,7 +264,7 @@ def run(ctx):
         "failing_programs": len(failing), "failing_executions_checked": sum(r["n_fail"] for r in res),
         "re_executions_observed": sum(r["reexec"] for r in res), "payload_runs": n_payload, "flaky_history_runs": n_flaky, "exhaustive": True,
         "rule": f"every generated program of size <= 4 that can fail (error-raising leaves at any depth, inside containers and control "
-        "forms, catch with non-matching class, recover that re-raises), executed twice on one database (second execution on the same backend object, and on a new one as a second process would) under the default schedule (size <= 3: every "
+        "forms, catch with non-matching class, recover that re-raises), executed twice on one database (second execution on the same backend object, on a new one as a second process would, and under a configured non-empty root context) under the default schedule (size <= 3: every "
         "schedule within the deviation bound); oracle: outcome is admissible, root and failing job with its whole ancestor chain are recorded with "
         "an ErrorValue result, and the failing task function runs again in the second execution; plus errors carrying each of 6 payload kinds "
         "(serializable, and unserializable in every way pickle refuses: AttributeError/PicklingError/TypeError) raised at depth 0-2; plus every history of <=4 (thorough 5) executions in which an external resource is present / missing, for "
